@@ -612,7 +612,13 @@ def run(rep):
     try:
         goals = families(M)
     except symnp.Undecided as e:
-        rep.errors.append(f'front end could not follow the code: {e}'); return
+        # outside the symbolic front end: undecided by the contracts (exit 2), unless the native decode stand-in finds a failing input (then a VIOLATION with that input)
+        rep.add(core.Ob('C05/engine-subset', None, 'cpython-exec-symnp', core.UNKNOWN, 0.0, detail=f'the symbolic front end could not follow the code: {e}', clause='carriers within the symbolic-numpy subset'))
+        DECODE_FAIL.clear(); bounded(rep, M)
+        if DECODE_FAIL:
+            ob = core.Ob('C05/bounded.decode/stored-constant-decodes-within-the-step-bound', None, 'bounded-native', core.REFUTED, 0.0, detail=str(DECODE_FAIL[0]), clause='stored bytes decode to within the step bound of the float constant')
+            ob.replay = dict(confirmed=True, inputs=DECODE_FAIL[0]); rep.add(ob)
+        return
     res = cc.discharge(goals); cc.register(rep, 'C05', fns, goals, res)
     base = {g.id: r[0] for g, r in zip(goals, res)}
     fails = bounded(rep, M); saturation_note(rep, M)
